@@ -27,7 +27,7 @@ TEXTS = {
     'multi-line': 'line one\nline two', 'multi-line-blank': 'line one\n\nline three', 'multi-line-hash': 'line one\n#hash line',
     'multi-line-semicolon': 'line one\n;semi line', 'starts-hash': '#starts with hash', 'starts-semicolon': ';starts with semicolon',
     'percent-sign': '50% owner', 'percent-paren': '%(x)s', 'equals': 'a=b', 'colon': 'a: b', 'brackets': '[x]', 'empty': '', 'upper': 'UPPER Case',
-    'non-ascii': 'Zoë Müller', 'quote': 'say "hi"', 'long': 'x' * 400, 'inline-hash': 'apt #4', 'inline-semicolon': 'a ; b',
+    'non-ascii': 'Zoë Müller', 'beyond-latin-1': 'Dvořák – Nguyễn’s', 'cjk': '東京 1-2', 'quote': 'say "hi"', 'long': 'x' * 400, 'inline-hash': 'apt #4', 'inline-semicolon': 'a ; b',
     'wrapped-in-quotes': '"Smith"', 'quotes-both-ends': '"A" and "B"', 'single-quotes': "'x'", 'parens': '(x)', 'braces': '{x}', 'backslash': 'a\\b', 'backslash-n': 'a\\nb',
     'looks-like-number': '007', 'looks-like-bool': 'yes', 'looks-like-none': 'None', 'only-quotes': '""', 'dollar': '$5', 'section-like': '[1040]',
 }
